@@ -239,6 +239,24 @@ func (b *bsym) decide(c interface{}) bool {
 		if x == False {
 			return false
 		}
+		// forced by the path condition? (syntactically, else by the solver) -- not a branch then
+		nx := Not(x)
+		for _, p := range b.pc {
+			if p == x {
+				return true
+			}
+			if p == nx {
+				return false
+			}
+		}
+		if !b.feasible(x) {
+			b.pc = append(b.pc, nx)
+			return false
+		}
+		if !b.feasible(nx) {
+			b.pc = append(b.pc, x)
+			return true
+		}
 		k := len(b.taken)
 		var d bool
 		if k < len(b.decisions) {
